@@ -1,4 +1,5 @@
 import Lemmas.SquashRefine
+import Lemmas.Compose
 /-!
 # C02 — Squashing per-segment partial stores equals sequential store execution
 
@@ -412,6 +413,71 @@ theorem model_squash_eq_sequential_set_sum_bigdecimal (cfg : Cfg) (hpol : cfg.po
   obtain ⟨f, h1, h2⟩ := (refSetSumDec cfg hpol hvt).model_squash_eq_seq segs hk hF hG k
   exact typed_eq_of_repDecQ hpol h1 h2
 
+/-! ### B7: the placement of the boundaries the engine really uses (composition with C13)
+
+"Any placement of the segment boundaries" includes the one the engine uses: the segments of the real
+`block.Segmenter` of a store (`init` = the store's initial block, `end_` = the hand-off block of the
+request, `interval` = the segment size), walked in index order as tier 1 schedules and squashes them, each
+job running the blocks of its `Range` in order.  `SV.Segmenter.segments` / `SV.Range.blocks`
+(`Model/Segmenter.lean`) are built from `range?`, the function the C13 correspondence ties to `Segmenter.Range`;
+`Lemmas/Compose.lean` proves from the closed form that they list every block of `[init, end)` once, in order. -/
+
+/-- the cut of the blocks `[init, end)` made by the segmenter: one list of per-block call lists per segment -/
+def segmenterCut (s : Segmenter) (callsAt : Nat → List Op) : List (List (List Op)) :=
+  s.segments.map (fun r => r.blocks.map callsAt)
+
+/-- the segmenter's cut *is* a cut of the whole range: concatenated, it is the block-by-block list of
+`[init, end)`, nothing lost, duplicated or reordered. -/
+theorem segmenterCut_flatten (s : Segmenter) (hk : 0 < s.interval) (hlt : s.init < s.end_)
+    (callsAt : Nat → List Op) :
+    (segmenterCut s callsAt).flatten = (List.range' s.init (s.end_ - s.init)).map callsAt :=
+  Segmenter.segments_map_flatten s hk hlt callsAt
+
+/-- **C13 ∘ C02**, every refined policy: the squash of the partial stores of the segmenter's segments
+and the sequential execution of the blocks `init … end-1` on one store represent the same typed value
+for every key — for every segment size, initial block and end block, and whatever each block calls. -/
+theorem model_squash_segmenter_eq_sequential_refine {cfg : Cfg} {sem : Sem} {F' P W : Type} {A : KeyAlg F' P W}
+    (R : Refine cfg sem A) (s : Segmenter) (hk : 0 < s.interval) (hlt : s.init < s.end_)
+    (callsAt : Nat → List Op)
+    (ha : ∀ b, s.init ≤ b → b < s.end_ → ∀ op ∈ callsAt b, op.kind = .deletePrefix ∨ R.okOp op)
+    {F G : Store}
+    (hF : seqRun cfg sem Store.empty ((List.range' s.init (s.end_ - s.init)).map callsAt) = .ok F)
+    (hG : squashRun cfg sem Store.empty (segmenterCut s callsAt) = some G) (k : Bytes) :
+    ∃ f : Option F', ORel R.RF (look F.kv k) f ∧ ORel R.RF (look G.kv k) f := by
+  rw [← segmenterCut_flatten s hk hlt callsAt] at hF
+  refine R.model_squash_eq_seq (segmenterCut s callsAt) ?_ hF hG k
+  intro seg hseg calls hcalls op hop
+  obtain ⟨r, hr, rfl⟩ := List.mem_map.1 hseg
+  obtain ⟨b, hb, rfl⟩ := List.mem_map.1 hcalls
+  have hbr : r.start ≤ b ∧ b < r.stop := by
+    have := List.mem_range'_1.1 hb; omega
+  -- the block lies in a segment, hence in `[init, end)`
+  have hu := Segmenter.segments_mem_bounds s hk hlt hr
+  exact ha b (by omega) (by omega) op hop
+
+/-- **C13 ∘ C02** for `set` (byte equality); the other policies follow from the general theorem the same way. -/
+theorem model_squash_segmenter_eq_sequential_set (cfg : Cfg) (sem : Sem) (hpol : cfg.policy = .set)
+    (s : Segmenter) (hk : 0 < s.interval) (hlt : s.init < s.end_) (callsAt : Nat → List Op)
+    (ha : ∀ b, s.init ≤ b → b < s.end_ → ∀ op ∈ callsAt b, op.kind = .deletePrefix ∨ op.kind = .set)
+    {F G : Store}
+    (hF : seqRun cfg sem Store.empty ((List.range' s.init (s.end_ - s.init)).map callsAt) = .ok F)
+    (hG : squashRun cfg sem Store.empty (segmenterCut s callsAt) = some G) :
+    ∀ k, look F.kv k = look G.kv k := by
+  intro k
+  obtain ⟨f, h1, h2⟩ := model_squash_segmenter_eq_sequential_refine (refSet cfg sem hpol) s hk hlt callsAt ha hF hG k
+  exact ORel_eq h1 h2
+
+/-- **C13 ∘ C02** for `add` over int64. -/
+theorem model_squash_segmenter_eq_sequential_add_int64 (cfg : Cfg) (hpol : cfg.policy = .add) (hvt : cfg.vt = .int64)
+    (s : Segmenter) (hk : 0 < s.interval) (hlt : s.init < s.end_) (callsAt : Nat → List Op)
+    {F G : Store}
+    (hF : seqRun cfg (stdSem cfg) Store.empty ((List.range' s.init (s.end_ - s.init)).map callsAt) = .ok F)
+    (hG : squashRun cfg (stdSem cfg) Store.empty (segmenterCut s callsAt) = some G)
+    (hcut : CallsAre (fun op => op.kind = .sum .int64) (segmenterCut s callsAt)) :
+    ∀ k, look F.kv k = look G.kv k := by
+  rw [← segmenterCut_flatten s hk hlt callsAt] at hF
+  exact model_squash_eq_sequential_add_int64 cfg hpol hvt (segmenterCut s callsAt) hcut hF hG
+
 /-! ### Non-vacuity of layer B: concrete histories on which both runs succeed -/
 
 def exCfg (p : Policy) (vt : VT) : Cfg := ⟨p, vt, 0, 1000000, 1000000⟩
@@ -507,5 +573,21 @@ example : CallsAre (fun op => op.kind = .setSum .int64 ∧ SetSumOperand InRange
     first
       | exact Or.inl rfl
       | exact Or.inr ⟨rfl, hv _ (by omega)⟩
+
+/-! non-vacuity of B7: a real segmenter placement, and a history on it where both runs succeed -/
+example : (⟨10, 5, 32⟩ : Segmenter).segments = [⟨5, 10⟩, ⟨10, 20⟩, ⟨20, 30⟩, ⟨30, 32⟩] := by decide
+example : ((⟨10, 5, 32⟩ : Segmenter).segments.map Range.blocks).flatten = List.range' 5 27 := by decide
+/-- block `b` adds `b` to `a1`, and every third block deletes the prefix `a` first (ordinal 0) -/
+def exCallsAt (b : Nat) : List Op :=
+  (if b % 3 = 0 then [⟨.deletePrefix, 0, pfxA, []⟩] else []) ++
+    [⟨.sum .int64, 1, kA, renderInt b⟩, ⟨.sum .int64, 2, kB, renderInt 1⟩]
+example : segmenterCut ⟨2, 1, 6⟩ exCallsAt =
+    [[exCallsAt 1], [exCallsAt 2, exCallsAt 3], [exCallsAt 4, exCallsAt 5]] := by decide
+-- blocks 1..5: `a1` is deleted at block 3 then holds 3+4+5 = 12, `b` counts the five blocks
+example : exBoth (exCfg .add .int64) (segmenterCut ⟨2, 1, 6⟩ exCallsAt) (some (renderInt 12)) (some (renderInt 5)) = true := by
+  decide
+example : CallsAre (fun op => op.kind = .sum .int64) (segmenterCut ⟨2, 1, 6⟩ exCallsAt) := by
+  simp [CallsAre, segmenterCut, Segmenter.segments, Segmenter.firstIndex, Segmenter.lastIndex, Segmenter.range?,
+    Segmenter.firstRange, Segmenter.followingRange, Range.blocks, exCallsAt, List.range', List.filterMap]
 
 end SV.C02
